@@ -55,6 +55,18 @@ func VerifTSO(a Allocator) (physical time.Time, logical int64, lastSaved time.Ti
 	return
 }
 
+// VerifWriteMaxTS writes ts into the allocator's oracle the way LocalTSOAllocator.WriteTSO does for the maximum
+// collected by a global timestamp request (resetUserTimestamp with ignoreSmaller = true).
+func VerifWriteMaxTS(a Allocator, ts uint64) error {
+	switch x := a.(type) {
+	case *GlobalTSOAllocator:
+		return x.timestampOracle.resetUserTimestamp(x.leadership, ts, true)
+	case *LocalTSOAllocator:
+		return x.timestampOracle.resetUserTimestamp(x.leadership, ts, true)
+	}
+	return nil
+}
+
 // VerifSyncMaxTS, when set by a verification harness, is called by the global allocator's SyncMaxTS in the goroutine
 // of every request: with stage "send" before the request is sent (it may block to realise a chosen interleaving) and
 // with stage "recv" after the reply arrived. An error returned at "recv" replaces the reply (a reply lost on the way).
